@@ -16,7 +16,13 @@ history behaves like a canonical registry built from the same contents; (O3) val
 that defines the property accepts; (O4) defaultProfiles changes `matching`/reported profile only; (O5) removing
 an unknown profile raises NoSuchProfileException and changes nothing; (O6) remove-all then re-adding the
 built-ins in the original order restores a fresh `Profiles()`; (O7) any mutator that raises (undefined macro,
-cyclic macro, unknown profile) leaves the registry unchanged.
+cyclic macro, unknown profile) leaves the registry unchanged; (O8) for a macro set without a cycle
+`_expand_macros` ends within the rank bound, leaves no placeholder, and returns a text when every macro is defined;
+(O9) no built-in macro lies on a cycle (else `addProfile` with a definition that names it does not return).
+
+wave 3 streams: termination (`phs`, `acyc`, `passes` against re.findall, an independent cycle search and the pass
+count of the real loop) and `spec` (the model's `specReg` on independently tracked contents against the
+implementation's observables after a history).
 """
 import copy
 import json
@@ -104,6 +110,73 @@ MACRO_BODIES = {
 
 
 PH = re.compile(r'{([a-z][a-z0-9-]*)}')
+
+
+
+# ----------------------------------------------------------------------------------------------
+# termination of `_expand_macros` (T14.6): independent Python renderings of the notions of Model/MacroRank.lean
+class TooManyPasses(Exception):
+    pass
+
+
+class CountingRe:
+    """stands in for the module `re` inside cssutils.profiles while one `_expand_macros` call runs: counts the
+    `re.sub` passes of the real loop and stops it after `cap` passes (the model's fuel)"""
+
+    def __init__(self, real, cap):
+        self.real, self.cap, self.passes = real, cap, 0
+
+    def sub(self, *a, **k):
+        self.passes += 1
+        if self.passes > self.cap:
+            raise TooManyPasses()
+        return self.real.sub(*a, **k)
+
+    def __getattr__(self, name):
+        return getattr(self.real, name)
+
+
+def py_acyclic(m):
+    """no cycle among the defined macros (depth-first search, three colours)"""
+    colour = {}
+
+    def visit(k):
+        stack = [(k, iter(PH.findall(m[k])))]
+        colour[k] = 1
+        while stack:
+            node, it = stack[-1]
+            for n in it:
+                if n not in m:
+                    continue
+                c = colour.get(n, 0)
+                if c == 1:
+                    return False
+                if c == 0:
+                    colour[n] = 1
+                    stack.append((n, iter(PH.findall(m[n]))))
+                    break
+            else:
+                colour[node] = 2
+                stack.pop()
+        return True
+    return all(colour.get(k, 0) == 2 or visit(k) for k in m)
+
+
+def py_closed(m):
+    return all(n in m for b in m.values() for n in PH.findall(b))
+
+
+def py_rank(m, k, memo):
+    if k not in m:
+        return 0
+    if k not in memo:
+        memo[k] = max([py_rank(m, n, memo) + 1 for n in PH.findall(m[k])] or [0])
+    return memo[k]
+
+
+def py_depth(m, v):
+    memo = {}
+    return max([py_rank(m, n, memo) + 1 for n in PH.findall(v)] or [0])
 
 
 def exc_name(e):
@@ -387,6 +460,13 @@ class C14(Check):
         'addProfiles list of __init__), cross-checked by comparing the initial registry of model and implementation',
         "regex acceptance is a parameter of the model; in the correspondence it is CPython's `re` applied to the "
         "model's own expanded pattern strings",
+        'lean/CssVerif/Model/MacroRank.lean (placeholder names, ranks, cycle check, pass count) tied by the termination '
+        'stream of this run: re.findall, an independent depth-first cycle search, and the number of re.sub passes of '
+        'the real loop counted through a stand-in for the module `re` inside cssutils.profiles; '
+        'lean/CssVerif/Model/ProfilesSpec.lean (specReg) tied by comparing it, on contents tracked independently, '
+        'with what the implementation shows after a history',
+        'the built-in tables are generated as code points and the builtin_* theorems are evaluated by the Lean kernel '
+        'on them at build time (a changed table re-checks them)',
     )
     assumptions = (
         'the registry is given a log that never raises (= log.raiseExceptions off, the mode used while parsing): a '
@@ -401,7 +481,10 @@ class C14(Check):
             'removed, remove-all); corpus = the histories of the four repaired findings and hand-made ones, run '
             'first. non-trivial = distinct (history prefix) whose last operation changed an observable or raised, '
             'and distinct oracle cases; verdict battery: %d (name, value) pairs x validate/validateWithProfile '
-            'after every operation, plus validateWithProfile/propertiesByProfile with explicit profile arguments'
+            'after every operation, plus validateWithProfile/propertiesByProfile with explicit profile arguments; '
+            'termination stream: (macro set, value) pairs over 8 macro names of kinds ranked / chain / free / ring '
+            'with odd literal pieces and undefined names, and the built-in macro environment with the built-in '
+            'patterns; specReg stream: the first 60 (thorough 500) histories'
             % len(BATTERY))
 
     # ------------------------------------------------------------------------------------------
@@ -433,6 +516,9 @@ class C14(Check):
                 ctx.disagree('hypotheses of init_contents on the built-in tables', {'op': 'initcheck'}, 'Profiles() works', rep)
         self.correspond(ctx, impl, seqs)
         self.expand_correspond(ctx, impl, rng)
+        self.spec_correspond(ctx, impl, seqs)
+        self.termination_correspond(ctx, impl, ctx.sub_rng('c14-term'))
+        self.oracle_builtin_macros(ctx, impl)
         self.oracle(ctx, impl, seqs, rng)
 
     # -- generators --------------------------------------------------------------------------------
@@ -808,6 +894,209 @@ class C14(Check):
                 if r != got:
                     ctx.disagree('_expand_macros', {'macros': m, 'value': v}, got, rep)
 
+    # -- the registry as a function of the contents (`specReg`, C14.answers_from_contents) ---------------
+    def spec_correspond(self, ctx, impl, seqs):
+        """after a history: what the implementation shows against the model's `specReg` evaluated on the contents
+        that the tracker derived from the documented meaning of the operations (independent of both)"""
+        if not ctx.model_ok:
+            return
+        cases, lines = [], []
+        for ops in seqs[:ctx.n(60, 500)]:
+            p, tr = self.run_history(impl, ops)
+            cases.append((ops, impl.observe(p)))
+            lines.append(('spec %s ' % enc_names(tr.default)) + ' '.join(
+                '%s %s %s' % (enc(n), enc_props(ps), enc_macros(ms) if ms else 'E') for n, ps, ms in tr.contents))
+        for (ops, obs), rep in zip(cases, ctx.driver([ln.rstrip() for ln in lines])):
+            ctx.case(key=('spec', repr(ops)), nontrivial=True, kind='spec')
+            if rep == 'bad-op':
+                ctx.disagree('specReg request', {'history': ops}, 'observables', rep)
+                continue
+            md = parse_dump(rep)
+            for key in ('names', 'known', 'eff', 'bp', 'pats'):
+                if md[key] != obs[key]:
+                    ctx.disagree('registry computed from the contents: observable %s' % key,
+                                 {'history': ops, 'start': 'Profiles()'},
+                                 obs[key] if key != 'pats' else [x for x in obs[key] if x not in md[key]][:5],
+                                 md[key] if key != 'pats' else [x for x in md[key] if x not in obs[key]][:5])
+                    break
+
+    # -- termination of the expansion (T14.6) ---------------------------------------------------------
+    TERM_NAMES = ['a', 'b', 'c1', 'd-e', 'f', 'g', 'h2', 'i-']
+    TERM_LIT = ['x', '|', '(', ')', '{', '}', '{2}', '{1,2}', 'A', ' ', '-', 'a', '{A}', '{1a}', '\\{', '']
+
+    def gen_term_case(self, rng):
+        """(macros, value, kind): ranked = a body uses later names only (no cycle by construction); free = any name
+        (cycles happen); ring = a cycle of single references (the loop never ends, the text grows slowly)"""
+        names = list(self.TERM_NAMES)
+        rng.shuffle(names)
+        names = names[:rng.randint(1, len(names))]
+        kind = rng.choice(['ranked', 'ranked', 'ranked', 'free', 'ring', 'chain'])
+        m = {}
+
+        def body(allowed):
+            parts = []
+            for _ in range(rng.randint(0, 4)):
+                if allowed and rng.random() < 0.5:
+                    parts.append('{%s}' % rng.choice(allowed))
+                elif rng.random() < 0.08:
+                    parts.append('{%s}' % rng.choice(['nosuch', 'z9']))
+                else:
+                    parts.append(rng.choice(self.TERM_LIT))
+            return ''.join(parts)
+        for i, k in enumerate(names):
+            if kind == 'ranked':
+                m[k] = body(names[i + 1:])
+            elif kind == 'free':
+                m[k] = body(names)
+            elif kind == 'chain':
+                # every macro uses the next one: as many passes as there are names
+                m[k] = rng.choice(['', 'x', '(']) + ('{%s}' % names[i + 1] if i + 1 < len(names) else 'z')
+            else:
+                m[k] = rng.choice(['', 'x', '(']) + '{%s}' % names[(i + 1) % len(names)] + rng.choice(['', '|y'])
+        if rng.random() < 0.15:
+            m[rng.choice(['A', '1x', 'a b'])] = '{%s}' % rng.choice(names)   # a key no placeholder can name
+        v = body(names + ['nosuch'] if rng.random() < 0.1 else names)
+        if kind == 'chain' and rng.random() < 0.7:
+            v = '{%s}' % names[0]
+        return m, v, kind
+
+    def term_case(self, ctx, impl, m, v, kind, reps):
+        """one (macro set, value): the model's answers `reps` = [phs, acyc, passes] (None without a model) against
+        the implementation and against the independent Python renderings; the property on the implementation"""
+        P = impl.P
+        acyc, closed = py_acyclic(m), py_closed(m)
+        names = PH.findall(v)
+        bound = py_depth(m, v) if acyc else None
+        proxy = CountingRe(re, 200)
+        if not hasattr(self, '_term_p'):
+            self._term_p = impl.fresh()      # `_expand_macros` reads and writes nothing of the registry
+        p = self._term_p
+        P.re = proxy
+        try:
+            with time_limit(5.0):
+                got = ('OK', p._expand_macros({'k': v}, dict(m))['k'])
+        except KeyError as e:
+            got = ('KeyError', e.args[0] if e.args else None)
+        except (TooManyPasses, TimeLimit):
+            got = ('Diverges', None)
+        finally:
+            P.re = re
+        passes = proxy.passes
+        ctx.case(key=('term', repr(sorted(m.items())), v), nontrivial=passes > 0, kind='term-' + kind)
+        w = {'oracle': 'O8', 'macros': m, 'value': v, 'kind': kind}
+        # the property, on the implementation alone
+        if acyc:
+            if got[0] == 'Diverges':
+                ctx.violate('T14.6 the expansion ends for a macro set without a cycle', w,
+                            'no cycle among the macros, but _expand_macros made more than 200 passes')
+            elif passes > bound:
+                ctx.violate('T14.6 the expansion ends within depth passes', w,
+                            '%d passes, the ranks allow %d' % (passes, bound))
+            elif got[0] == 'OK' and PH.search(got[1]):
+                ctx.violate('T14.6 an expansion that returns has no placeholder left', w, got[1])
+            elif closed and all(n in m for n in names) and got[0] != 'OK':
+                ctx.violate('T14.6 every macro defined: the expansion returns a text', w, repr(got))
+        if reps is None:
+            return
+        r_phs, r_acyc, r_passes = reps
+        if r_phs != 'OK ' + (','.join(enc(n) for n in names) if names else '_'):
+            ctx.disagree('placeholder names of a value', {'value': v}, names, r_phs)
+        if r_acyc != 'OK %d %d' % (acyc, closed):
+            ctx.disagree('cycle check / closedness of a macro set', {'macros': m}, [acyc, closed], r_acyc)
+        if r_passes is not None:
+            if got[0] == 'OK':
+                want = 'OK %d %s' % (passes, bound if acyc else '-')
+            elif got[0] == 'KeyError':
+                want = 'ERR KeyError %s' % enc(got[1])
+            else:
+                want = 'ERR Diverges'
+            if r_passes != want:
+                ctx.disagree('passes of _expand_macros', {'macros': m, 'value': v}, want, r_passes)
+
+    def oracle_builtin_macros(self, ctx, impl):
+        """the built-in macro set itself (token macros, general macros, the macros of the built-in profiles): a cycle
+        in it makes `addProfile` hang for every definition that names a macro on the cycle"""
+        env = c14_profiles.final_env(self.tables(ctx))
+        if py_acyclic(env):
+            return
+        for k in env:
+            sub = {k: env[k]}
+            todo = [k]
+            while todo:                      # the macros `k` reaches
+                for n in PH.findall(sub[todo.pop()]):
+                    if n in env and n not in sub:
+                        sub[n] = env[n]
+                        todo.append(n)
+            if py_acyclic(sub):
+                continue
+            p = impl.fresh()
+            impl.P.re = CountingRe(re, 200)
+            try:
+                with time_limit(5.0):
+                    p.addProfile('T', {'t': '{%s}' % k})
+                outcome = 'returned'
+            except (TooManyPasses, TimeLimit):
+                outcome = 'Diverges'
+            except Exception as e:
+                outcome = exc_name(e)
+            finally:
+                impl.P.re = re
+            if outcome == 'Diverges':
+                ctx.violate('T14.6 the built-in macros have no cycle', {'oracle': 'O9', 'history': [['add', 'T', {'t': '{%s}' % k}, None]]},
+                            "addProfile('T', {'t': '{%s}'}) on a fresh Profiles() does not return: the built-in macro "
+                            "%r is on a cycle (%s)" % (k, k, ', '.join(sorted(sub))))
+                return
+
+    def term_lines(self, m, v, with_passes):
+        ms = enc_macros(m) if m else 'E'
+        ls = ['phs %s' % enc(v), 'acyc %s' % ms]
+        if with_passes:
+            ls.append('passes %s %s' % (ms, enc(v)))
+        return ls
+
+    def termination_correspond(self, ctx, impl, rng, only=None):
+        t = self.tables(ctx)
+        cases = []
+        if only is not None:
+            cases = only
+        else:
+            env = c14_profiles.final_env(t)
+            pats = [v for _, p, _ in t['order'] for v in p.values()] + list(env.values())
+            rng.shuffle(pats)
+            for v in pats[:ctx.n(25, len(pats))]:
+                cases.append((env, v, 'builtin'))
+            ring = dict(env)
+            ring['w'] = r'\s*{nl}?'
+            ring['nl'] = r'\n|{w}'
+            cases.append((ring, 'a', 'builtin-ring'))
+            for _ in range(ctx.n(1200, 25000)):
+                cases.append(self.gen_term_case(rng))
+        lines, shape = [], []
+        for m, v, kind in cases:
+            # a cycle that is not a ring of single references can double the text with every pass: no `passes`
+            # request then (model and implementation would both be stopped by the size, not by the property)
+            wp = kind in ('ranked', 'ring', 'chain', 'builtin') or py_acyclic(m)
+            ls = self.term_lines(m, v, wp)
+            shape.append((len(lines), wp))
+            lines += ls
+        out = ctx.driver(lines) if ctx.model_ok else None
+        for (m, v, kind), (i, wp) in zip(cases, shape):
+            if not wp and kind != 'builtin-ring':
+                # the implementation is not run either on such a set
+                if out is not None:
+                    self.term_static(ctx, m, v, out[i], out[i + 1])
+                continue
+            reps = None if out is None else [out[i], out[i + 1], out[i + 2] if wp else None]
+            self.term_case(ctx, impl, m, v, kind, reps)
+
+    def term_static(self, ctx, m, v, r_phs, r_acyc):
+        names = PH.findall(v)
+        ctx.case(key=('term-static', repr(sorted(m.items())), v), nontrivial=bool(names), kind='term-cyclic')
+        if r_phs != 'OK ' + (','.join(enc(n) for n in names) if names else '_'):
+            ctx.disagree('placeholder names of a value', {'value': v}, names, r_phs)
+        if r_acyc != 'OK %d %d' % (py_acyclic(m), py_closed(m)):
+            ctx.disagree('cycle check / closedness of a macro set', {'macros': m}, [py_acyclic(m), py_closed(m)], r_acyc)
+
     # -- oracle ---------------------------------------------------------------------------------------
     def snapshot(self, impl, p):
         try:
@@ -1042,6 +1331,12 @@ class C14(Check):
         seqs = [d['input']['history'] for d in ctx.disagreements
                 if isinstance(d.get('input'), dict) and d['input'].get('history')]
         seqs += self.corpus(ctx) + self.fixed_histories()
+        self.oracle_builtin_macros(ctx, impl)
+        if ctx.violations:
+            return
+        self.termination_correspond(ctx, impl, ctx.sub_rng('c14-term'))
+        if ctx.violations:
+            return
         for ops in seqs:
             self.oracle_history(ctx, impl, ops, rng)
             if ctx.violations:
@@ -1059,7 +1354,11 @@ class C14(Check):
         self.builtin_order = t['order']
         rng = ctx.sub_rng('replay')
         w = data.get('witness') or {}
-        if data.get('kind') == 'impl-violates' and w.get('oracle') == 'O1':
+        if w.get('oracle') == 'O9':
+            self.oracle_builtin_macros(ctx, impl)
+        elif w.get('oracle') == 'O8':
+            self.termination_correspond(ctx, impl, rng, only=[(w['macros'], w['value'], w.get('kind', 'free'))])
+        elif data.get('kind') == 'impl-violates' and w.get('oracle') == 'O1':
             self.oracle_twin(ctx, impl, rng, fixed=(w['ops'], w['insert_at'], w['remove_at'], w['profile']))
         elif data.get('kind') == 'impl-violates' and 'history' in w:
             self.oracle_history(ctx, impl, w['history'], rng)
